@@ -33,6 +33,11 @@ type Broker struct {
 	delay func(subscriber, topic string) time.Duration
 	hold  chan struct{} // non-nil: deliveries wait until it is closed
 	conns map[*conn]bool
+	// subDelay decides how long the broker takes to process a SUBSCRIBE of a client (the
+	// subscription becomes active, and is acknowledged, only afterwards); nil = no delay.
+	subDelay func(clientID, topic string) time.Duration
+	// refused client ids: their connection is cut and every new CONNECT under that id is dropped
+	refused map[string]bool
 }
 
 type conn struct {
@@ -95,7 +100,50 @@ func (b *Broker) Reset() {
 	b.mu.Lock()
 	b.pubs = nil
 	b.delay = nil
+	b.subDelay = nil
+	b.refused = nil
 	b.mu.Unlock()
+}
+
+// SetSubscribeDelay makes the broker slow in processing SUBSCRIBE packets: the subscription is
+// registered and acknowledged only after f(client id, topic).
+func (b *Broker) SetSubscribeDelay(f func(clientID, topic string) time.Duration) {
+	b.mu.Lock()
+	b.subDelay = f
+	b.mu.Unlock()
+}
+
+// ClientIDs returns the MQTT client ids of the open connections.
+func (b *Broker) ClientIDs() []string {
+	b.mu.Lock()
+	defer b.mu.Unlock()
+	var ids []string
+	for c := range b.conns {
+		if c.id != "" {
+			ids = append(ids, c.id)
+		}
+	}
+	return ids
+}
+
+// Refuse cuts the connection of the client with this id and drops every later connection
+// attempt under the same id (the broker is unreachable for that client from now on).
+func (b *Broker) Refuse(id string) {
+	b.mu.Lock()
+	if b.refused == nil {
+		b.refused = map[string]bool{}
+	}
+	b.refused[id] = true
+	var cut []*conn
+	for c := range b.conns {
+		if c.id == id {
+			cut = append(cut, c)
+		}
+	}
+	b.mu.Unlock()
+	for _, c := range cut {
+		c.c.Close()
+	}
 }
 
 // Pubs returns a copy of the publish log.
@@ -395,7 +443,14 @@ func (b *Broker) serve(c *conn) {
 				if len(body) >= off+2 {
 					il := int(body[off])<<8 | int(body[off+1])
 					if len(body) >= off+2+il {
-						c.id = string(body[off+2 : off+2+il])
+						id := string(body[off+2 : off+2+il])
+						b.mu.Lock()
+						c.id = id
+						no := b.refused[id]
+						b.mu.Unlock()
+						if no {
+							return
+						}
 					}
 				}
 			}
@@ -431,6 +486,14 @@ func (b *Broker) serve(c *conn) {
 				tl := int(p[0])<<8 | int(p[1])
 				topic := string(p[2 : 2+tl])
 				p = p[2+tl+1:]
+				b.mu.Lock()
+				sd := b.subDelay
+				b.mu.Unlock()
+				if sd != nil {
+					if d := sd(c.id, topic); d > 0 {
+						time.Sleep(d)
+					}
+				}
 				b.mu.Lock()
 				dup := false
 				for _, x := range b.subs[topic] {
